@@ -228,6 +228,8 @@ def run(ck):
     _g.finished_early_return(ck, P)
     _g.prime_room(ck, P)
     _g.published_reset(ck, P)
+    from . import c08 as _c08
+    _c08.sync_commit(ck, P)
     # a requested leave (Z_BLOCK / Z_TREES) that loses its place makes the next call return a status zlib-ng does not
     from . import c04 as _c04
     _c04.voluntary_leave(ck, P)
